@@ -362,7 +362,50 @@ class Dataset:
         p = os.path.join(self.dir, "garbage.jsonl")
         open(p, "wb").write(rnd.choice([b"\xff\xfe{{{\n", b"not json at all\n{]\n", b"[1, 2\n"]))
         self._register("garbage_jsonl", p, "garbage_jsonl")
-        self.faults = [n for n in self.sources if n not in self.good]
+        # sources on STANDARD INPUT (subprocess cases): the bytes of a file are piped in, the source is named by a
+        # `-` URI of each reader that supports it; the intact prefix is what RecordReader yields from the file by path
+        self.stdin = []
+
+        def feed(name, uri, path, kind):
+            src = dict(self.sources[path]) if path in self.sources else None
+            if src is None:
+                self._register(name, path, "good", expect=None)
+                src = self.sources.pop(name)
+            self.sources[name] = dict(src, path=uri, kind=kind, stdin_file=src["path"])
+            self.stdin.append(name)
+        first_rec = [n for n in self.good if self.sources[n]["path"].endswith(".records")][0]
+        first_gz = [n for n in self.good if self.sources[n]["path"].endswith(".records.gz")][0]
+        feed("stdin_stream", "-", first_rec, "stdin_stream")
+        feed("stdin_stream_gz", "-", first_gz, "stdin_stream_gz")
+        feed("stdin_stream_uri", "stream://-", first_rec, "stdin_stream_uri")
+        jpath = os.path.join(self.dir, "feed.jsonl")
+        jd = [d for d in self.descs if not any(t.startswith(("command", "record")) for t, _ in d.get_field_tuples())]
+        with RecordWriter(jpath) as w:
+            for _ in range(rnd.randint(4, 9)):
+                w.write(make(rnd.choice(jd)))
+        feed("stdin_json", "jsonfile://-", jpath, "stdin_json")
+        cpath = os.path.join(self.dir, "feed.csv")
+        with open(cpath, "w", newline="") as fh:
+            cw = csv.writer(fh)
+            cw.writerow(["uid", "n", "s", "free text", "_generated", "_source"])      # without _generated the reader stamps "now"
+            for _ in range(rnd.randint(3, 8)):
+                cw.writerow([state["uid"], rnd.randrange(10), rnd.choice(S_POOL), rnd.choice(["a,b", 'q"x', "plain", ""]),
+                             "2022-03-04T05:06:07+00:00", rnd.choice(["csvsrc", ""])])
+                state["uid"] += 1
+        feed("stdin_csv", "csvfile://-", cpath, "stdin_csv")
+        try:
+            import fastavro  # noqa: F401
+            apath = os.path.join(self.dir, "feed.avro")
+            AD = RecordDescriptor("c16/avro", [("varint", "uid"), ("varint", "n"), ("string", "s"), ("datetime", "d1")])
+            with RecordWriter(apath) as w:
+                for _ in range(rnd.randint(3, 8)):
+                    w.write(make(AD))
+            feed("stdin_avro", "avro://-", apath, "stdin_avro")
+            self.sources["stdin_avro_magic"] = dict(self.sources["stdin_avro"], path="-", kind="stdin_avro_magic")
+            self.stdin.append("stdin_avro_magic")
+        except ImportError:
+            pass
+        self.faults = [n for n in self.sources if n not in self.good and n not in self.stdin]
         self.all_views = {}
         for s in self.sources.values():
             for v in s["views"]:
@@ -573,6 +616,8 @@ def build_argv(ds, src_names, opt, outdir):
         argv += ["--multi-timestamp"]
     if opt.get("list"):
         argv += ["-l"]
+    if opt.get("verbose"):
+        argv += ["-" + "v" * opt["verbose"]] if opt["verbose"] % 2 else ["-v"] * opt["verbose"]
     if opt.get("fmt"):
         argv += ["-f", opt["fmt"]]
     out = opt.get("out", "m:text")
@@ -581,7 +626,8 @@ def build_argv(ds, src_names, opt, outdir):
         writer = writer_uri(out, outdir)
         argv += ["-w", writer]
     elif out != "m:text":
-        argv += ["-m", out[2:]]
+        alias = {"m:json": "-j", "m:jsonlines": "-J", "m:csv": "-C", "m:line": "-L", "m:line-verbose": "-Lv"}
+        argv += [alias[out]] if opt.get("alias") else ["-m", out[2:]]
     if opt.get("split") is not None:
         argv += ["--split", str(opt["split"])]
         if opt.get("suffix_length") is not None:
@@ -1058,6 +1104,10 @@ def random_opt(rnd, out=None):
     if rnd.random() < 0.15:
         o["expr"] = EXPR
     o["out"] = out or rnd.choice(OUTS)
+    if rnd.random() < 0.3:
+        o["verbose"] = rnd.randint(1, 5)
+    if rnd.random() < 0.3 and o["out"].startswith("m:") and o["out"] != "m:text":
+        o["alias"] = True
     if rnd.random() < 0.15:
         o["multi"] = True
     if rnd.random() < 0.08:
@@ -1075,12 +1125,13 @@ def canonical(src_kinds, opt):
     return (tuple(src_kinds), tuple(sorted((k, v) for k, v in opt.items() if v not in (None, False))))
 
 
-def run_sub(argv, use_pty=False):
+def run_sub(argv, use_pty=False, stdin_bytes=None):
     """the command line as a fresh process: python -m flow.record.tools.rdump; use_pty: its stdout is a terminal
     (a pseudo terminal in raw mode, the master side is read)"""
     cmd = [core.PY, "-m", "flow.record.tools.rdump"] + argv
     if not use_pty:
-        p = subprocess.run(cmd, env=core.env_for_repo(), stdout=subprocess.PIPE, stderr=subprocess.PIPE, timeout=180)
+        p = subprocess.run(cmd, env=core.env_for_repo(), stdout=subprocess.PIPE, stderr=subprocess.PIPE, timeout=180,
+                           **(dict(input=stdin_bytes) if stdin_bytes is not None else dict(stdin=subprocess.DEVNULL)))
         rc, out, err = p.returncode, p.stdout, p.stderr
     else:
         import pty
@@ -1129,6 +1180,11 @@ def run_one(ctx, ds, src_names, opt, outdir, st, coq_cases, metas, rnd=None, sub
     sub: run the command line as a subprocess (no URI / selector capture)."""
     shutil.rmtree(outdir, ignore_errors=True)
     os.makedirs(outdir)
+    feeds = [ds.sources[n]["stdin_file"] for n in src_names if ds.sources[n].get("stdin_file")]
+    stdin_bytes = None
+    if feeds:
+        sub = True
+        stdin_bytes = open(feeds[0], "rb").read()
     stage1_problem, stage1_argv = None, None
     if opt.get("twice"):
         # the output of `rdump <sources> --multi-timestamp` is the input of the run under test
@@ -1154,7 +1210,7 @@ def run_one(ctx, ds, src_names, opt, outdir, st, coq_cases, metas, rnd=None, sub
     else:
         argv, writer = build_argv(ds, src_names, opt, outdir)
         sel_views, written = ref_pipeline(ds, src_names, opt)
-    res = run_sub(argv, use_pty=bool(opt.get("pty"))) if sub else run_main(argv)
+    res = run_sub(argv, use_pty=bool(opt.get("pty")), stdin_bytes=stdin_bytes) if sub else run_main(argv)
     if sub and res["rc"] not in (0, "exit:2"):
         res["exc"] = RuntimeError("exit status %s: %s" % (res["rc"], res["stderr"].strip().splitlines()[-1:] or ""))
     meta = dict(subprocess=bool(sub), kind="rdump-case", dataset=ds.idx, dataset_seed=ds.seed, sources=list(src_names), opt=opt,
@@ -1269,6 +1325,12 @@ def plan(ctx, ds, rnd):
     for out in OUTS:
         cases.append((good, dict(out=out)))
         cases.append((good, random_opt(rnd, out)))
+    # options that are not about records must not change them: -v repeated 0..5 times, the mode aliases
+    for k in range(1, 6):
+        cases.append((good, dict(verbose=k)))
+        cases.append((good, dict(verbose=k, out=rnd.choice(["w:records", "m:jsonlines", "m:csv", "w:stdout"]), skip=1, count=9)))
+    for out in ("m:json", "m:jsonlines", "m:csv", "m:line", "m:line-verbose"):
+        cases.append((core_good, dict(out=out, alias=True, fields="uid,s,n")))
     # compressed sources under neutral file names, at each position among the others, and alone
     for nn in ds.neutral:
         cases.append(([nn], dict(out="m:jsonlines")))
@@ -1485,8 +1547,25 @@ def subprocess_cases(ctx, st, report=True):
             bad = run_one(ctx, ds, srcs, dict(opt), outdir, st, None, None, sub=True)
             if bad:
                 return bad
+    # sources on standard input, for every reader that reads it: alone, and at each position among file sources
+    others = [x for x in ds.good if x != "goodg" and x not in ds.neutral][:2]
+    for sname in ds.stdin:
+        lists = [[sname]] + [others[:pos] + [sname] + others[pos:] for pos in range(len(others) + 1)]
+        for srcs in lists:
+            for opt in (dict(out="m:jsonlines"), dict(out="w:records", skip=1, count=6, rsrc="SRC2", verbose=2)):
+                ctx.count_case(("subprocess-stdin", tuple(srcs), tuple(sorted(opt.items()))))
+                n += 1
+                bad = run_one(ctx, ds, srcs, dict(opt), outdir, st, None, None, sub=True)
+                if bad:
+                    return bad
+    for k in (3, 5):
+        bad = run_one(ctx, ds, ds.good, dict(out="m:text", verbose=k), outdir, st, None, None, sub=True)
+        n += 1
+        if bad:
+            return bad
     if report:
-        ctx.notes.append("%d cases also run as a subprocess (python -m flow.record.tools.rdump)" % n)
+        ctx.notes.append("%d cases also run as a subprocess (python -m flow.record.tools.rdump), incl. stdout as a terminal "
+                         "and sources piped in on standard input" % n)
     return None
 
 
@@ -1497,6 +1576,10 @@ def describe(m):
         return "%s stage1.records %s  [stage1.records written by: rdump <%s> --multi-timestamp -w stage1.records] -> %s" % (
             "python -m flow.record.tools.rdump" if m.get("subprocess") else "rdump", " ".join(m["argv"][1:]),
             ", ".join(m["source_kinds"]), m["problem"])
+    if any(k.startswith("stdin_") for k in m.get("source_kinds", [])):
+        k = [x for x in m["source_kinds"] if x.startswith("stdin_")][0]
+        return "python -m flow.record.tools.rdump %s  with a %s file piped in on standard input  [sources: %s] -> %s" % (
+            " ".join(m["argv"]), k[6:], ", ".join(m["source_kinds"]), m["problem"])
     if m.get("opt", {}).get("pty"):
         return "python -m flow.record.tools.rdump %s  with a terminal (pty) as stdout  [sources: %s] -> %s" % (
             " ".join(a for a in m["argv"][len(m["sources"]):]), ", ".join(m["source_kinds"]), m["problem"])
